@@ -346,3 +346,120 @@ Section FStep.
     - intros u c Hcu Wc. destruct (Nat.eq_dec u t) as [->|Hu]; [apply (O_pr c Hcu Wc)|]. rewrite Cu in Hcu. rewrite (Co u Hu), (Htr u Hu). apply (f_pr _ _ _ R u c Hcu Wc).
   Qed.
 End FStep.
+
+Lemma fq_facts : forall j, fq j -> pr j = false /\ (forall q, spend q [j] = []) /\ rvals [j] = [] /\
+  (forall m0 q x, j <> ILock m0 (LPqSend q x)) /\ (forall m0 q, j <> ILock m0 (LPqCancelSet q)) /\ (forall m0 v, j <> IUnlock m0 (URet v)) /\
+  (forall m0 q, j <> ILock m0 (LPqRecv q)) /\ (forall q, j <> ICvReacq q) /\ (forall m0 q, j <> ILock m0 (LPqCancelGet q)).
+Proof.
+  intros j H. destruct j; cbn in H; try contradiction; try (repeat split; try reflexivity; intros; discriminate).
+  - destruct a; cbn in H; try contradiction; repeat split; try reflexivity; intros; discriminate.
+  - destruct a; cbn in H; try contradiction; repeat split; try reflexivity; intros; discriminate.
+Qed.
+
+Lemma spend_cons : forall q i r, spend q (i :: r) = spend q [i] ++ spend q r.
+Proof. intros. change (i :: r) with ([i] ++ r). apply spend_app. Qed.
+Lemma rvals_cons : forall i r, rvals (i :: r) = rvals [i] ++ rvals r.
+Proof. intros. change (i :: r) with ([i] ++ r). apply rvals_app. Qed.
+Lemma prcount_cons : forall i r, prcount (i :: r) = ((if pr i then 1 else 0) + prcount r)%nat.
+Proof. intros. unfold prcount. cbn [filter]. destruct (pr i); reflexivity. Qed.
+
+(** what the continuation gained: quiet instructions, or the return instruction of a channel command *)
+Lemma fq'_list : forall i new, (forall j, In j new -> fq' i j) ->
+  (forall q, spend q new = []) /\ rvals new = [] /\
+  (forall j, In j new -> (forall m0 q x, j <> ILock m0 (LPqSend q x)) /\ (forall m0 q, j <> ILock m0 (LPqCancelSet q)) /\
+                         (forall m0 q, j <> ILock m0 (LPqRecv q)) /\ (forall q, j <> ICvReacq q) /\ (forall m0 q, j <> ILock m0 (LPqCancelGet q)) /\
+                         (forall m0 z, j <> IUnlock m0 (URet (RVal z)))) /\
+  (~ chan_lock i -> prcount new = O /\ forall m0 v, ~ In (IUnlock m0 (URet v)) new).
+Proof.
+  intros i new. induction new as [|j k IH]; intro H.
+  - split; [reflexivity|]. split; [reflexivity|]. split; [intros j []|]. intros _. split; [reflexivity|intros m0 v []].
+  - destruct IH as [A [B [C D]]]; [intros; apply H; right; assumption|].
+    assert (Hj : (forall q, spend q [j] = []) /\ rvals [j] = [] /\
+                 ((forall m0 q x, j <> ILock m0 (LPqSend q x)) /\ (forall m0 q, j <> ILock m0 (LPqCancelSet q)) /\
+                  (forall m0 q, j <> ILock m0 (LPqRecv q)) /\ (forall q, j <> ICvReacq q) /\ (forall m0 q, j <> ILock m0 (LPqCancelGet q)) /\
+                  (forall m0 z, j <> IUnlock m0 (URet (RVal z)))) /\ (~ chan_lock i -> pr j = false /\ forall m0 v, j <> IUnlock m0 (URet v))).
+    { destruct (H j (or_introl eq_refl)) as [F|[Cl [[m0 [b ->]]|[m0 [c [x ->]]]]]].
+      - destruct (fq_facts j F) as [F1 [F2 [F3 [F4 [F5 [F6 [F7 [F8 F9]]]]]]]]. split; [exact F2|]. split; [exact F3|].
+        split; [repeat split; auto; intros m0 z E; exact (F6 m0 _ E)|]. intros _. split; [exact F1|exact F6].
+      - split; [intro q; reflexivity|]. split; [reflexivity|]. split; [repeat split; intros; discriminate|]. intro N. exfalso. exact (N Cl).
+      - split; [intro q; reflexivity|]. split; [reflexivity|]. split; [repeat split; intros; discriminate|]. intro N. exfalso. exact (N Cl). }
+    destruct Hj as [J1 [J2 [J3 J4]]].
+    split; [intro q; rewrite (spend_cons q j k), J1, A; reflexivity|]. split; [rewrite (rvals_cons j k), J2, B; reflexivity|].
+    split; [intros j0 [<-|Hin]; [exact J3|apply C; exact Hin]|].
+    intro N. destruct (J4 N) as [K1 K2]. destruct (D N) as [D1 D2]. split; [rewrite prcount_cons, K1, D1; reflexivity|].
+    intros m0 v [E|Hin]; [exact (K2 m0 v E)|exact (D2 m0 v Hin)].
+Qed.
+
+Lemma chan_lock_cur : forall st t i r, ShInv st -> tcont (thr st t) = i :: r -> chan_lock i ->
+  (exists a b, tcur (thr st t) = Some (CSend a b)) \/ (exists a, tcur (thr st t) = Some (CClosed a)).
+Proof.
+  intros st t i r S Hc [[m0 [c [x ->]]]|[m0 [c ->]]].
+  - left. exists c, x. apply (sh_own_ls st S t m0 c x). rewrite Hc. left. reflexivity.
+  - right. exists c. apply (sh_own_lc st S t m0 c). rewrite Hc. left. reflexivity.
+Qed.
+
+Lemma exec_instr_F_quiet : forall p st m t i r st' ev,
+  CInv (core st) -> ShInv st -> FRel p st m -> tcont (thr st t) = i :: r -> fq i -> exec_instr st t i r = (st', ev) ->
+  FRel p st' (fold_left m14r_step (evs t ev) m).
+Proof.
+  intros p st m t i r st' ev I S R Hc Hi H.
+  destruct (exec_instr_feff _ _ _ _ _ _ I Hc Hi H) as [Pp [new [Hc' Hnew]]].
+  destruct (exec_instr_eff _ _ _ _ _ _ I Hc H) as [F _ _ _ Htret _ Hnoc].
+  destruct (fq_facts i Hi) as [I1 [I2 [I3 [I4 [I5 [I6 [I7 [I8 I9]]]]]]]].
+  destruct (fq'_list i new Hnew) as [N1 [N2 [N3 N4]]].
+  assert (Tr : forall u, tret (thr st' u) = tret (thr st u)).
+  { apply Htret; [intros m0 v E; exact (I6 m0 v E)|intros m0 c x E; subst i; exact Hi]. }
+  assert (Pev : forall e, In e ev -> f14_plain e).
+  { intros e He. destruct (Hnoc e He) as [A B]. destruct e; try exact Logic.I; [exfalso; eapply A; reflexivity|exfalso; eapply B; reflexivity]. }
+  pose proof F as [Hn [Hf Ho]].
+  assert (Cu : forall u, tcur (thr st' u) = tcur (thr st u)) by (intro u; apply Hf).
+  assert (Tp : forall u, tpipe (thr st' u) = tpipe (thr st u)) by (intro u; apply Hf).
+  assert (Wk : forall u, wkr st' u <-> wkr st u) by (intro u; unfold wkr; rewrite Hn, Tp; tauto).
+  assert (Sp : forall q, spend q (mcont st') = spend q (mcont st)).
+  { intro q. unfold mcont. destruct (Nat.eq_dec main t) as [E|E]; [|rewrite (Ho main E); reflexivity].
+    rewrite E, Hc, Hc', spend_app, (spend_cons q i r), N1, I2. reflexivity. }
+  assert (Inr : forall j, In j (tcont (thr st' t)) -> In j new \/ In j (tcont (thr st t))).
+  { intros j Hj. rewrite Hc' in Hj. apply in_app_or in Hj. destruct Hj as [Hj|Hj]; [left; exact Hj|right; rewrite Hc; right; exact Hj]. }
+  assert (NotChan : forall c, tcur (thr st t) = Some c -> wcmd c \/ (exists q x, c = CPSend q x) -> ~ chan_lock i).
+  { intros c Hcu Hw Cl. destruct (chan_lock_cur st t i r S Hc Cl) as [[a [b E]]|[a E]]; rewrite E in Hcu; inversion Hcu; subst c;
+      (destruct Hw as [Hw|[q [x Hw]]]; [exact Hw|discriminate Hw]). }
+  apply (f_step p st st' m _ t i r (tpipe (thr st t)) R (m14r_fplain_fold t ev m Pev) F Hc).
+  - intro q. destruct (Pp q) as [A [B [C D]]]. split; [exact C|]. split; [exact D|]. intros _. split; [exact A|exact B].
+  - left. destruct (Pp (tpipe (thr st t))) as [A [B _]]. split; [exact A|]. split; [exact B|apply Sp].
+  - destruct (Pp (tpipe (thr st t))) as [_ [B _]]. rewrite B. auto.
+  - intros u _. apply Tr.
+  - intros _. reflexivity.
+  - intros q _. apply Sp.
+  - intros u W E. destruct (Pp (tpipe (thr st t))) as [A _]. rewrite A, Sp.
+    assert (Rt : rtransit (thr st' u) = rtransit (thr st u)).
+    { unfold rtransit. rewrite Cu, Tr. destruct (Nat.eq_dec u t) as [->|Hu]; [|rewrite (Ho u Hu); reflexivity].
+      rewrite Hc, Hc', rvals_app, (rvals_cons i r), N2, I3. reflexivity. }
+    rewrite Rt. pose proof (f_ps _ _ _ R u W) as L. cbn zeta in L. rewrite E in L.
+    destruct (m14r_fplain_fold t ev m Pev) as [M1 M2 M3 M4]. unfold dps. rewrite M1, M2. exact L.
+  - intros c W L Hcu. rewrite Cu in Hcu. rewrite Tr.
+    assert (L0 : is_late m t) by (destruct (m14r_fplain_fold t ev m Pev) as [_ _ _ M4]; unfold is_late in *; rewrite M4 in L; exact L).
+    destruct (f_ok _ _ _ R t c W L0 Hcu) as [A B]. split; [exact A|]. intros m0 v Hin. destruct (Inr _ Hin) as [Hj|Hj]; [|exact (B m0 v Hj)].
+    exfalso. destruct (f_late_cur _ _ _ R t L0) as [c0 [E0 W0]]. destruct (N4 (NotChan c0 E0 (or_introl W0))) as [_ Z0]. exact (Z0 m0 v Hj).
+  - intros m0 q x Hin. rewrite Cu. destruct (Inr _ Hin) as [Hj|Hj]; [exfalso; destruct (N3 _ Hj) as [Z0 _]; exact (Z0 m0 q x eq_refl)|].
+    apply (f_own_send _ _ _ R t m0 q x Hj).
+  - intros q x Hcu. rewrite Cu in Hcu. rewrite Tr. apply (f_sendret _ _ _ R t q x Hcu).
+  - intros q Hcu. rewrite Cu in Hcu. destruct (Pp q) as [_ [B _]]. rewrite B.
+    assert (Np : p <> FDropBad t q) by (intro E; destruct (f_pdrop _ _ _ R t q E) as [_ Z0]; rewrite Hc in Z0; discriminate Z0).
+    destruct (f_dropcmd _ _ _ R t q Hcu Np) as [[m0 A]|A]; [|right; exact A]. left. exists m0. rewrite Hc in A. rewrite Hc'.
+    destruct A as [A|A]; [exfalso; exact (I5 m0 q A)|apply in_or_app; right; exact A].
+  - intros m0 q Hin. rewrite Cu. destruct (Inr _ Hin) as [Hj|Hj]; [exfalso; destruct (N3 _ Hj) as [_ [Z0 _]]; exact (Z0 m0 q eq_refl)|].
+    apply (f_own_cs _ _ _ R t m0 q Hj).
+  - intros m0 v Hin. rewrite Cu. destruct (Inr _ Hin) as [Hj|Hj].
+    + split.
+      * intros q x Hcu. destruct (N4 (NotChan _ Hcu (or_intror (ex_intro _ q (ex_intro _ x eq_refl))))) as [_ Z0]. exact (Z0 m0 v Hj).
+      * intros z ->. exfalso. destruct (N3 _ Hj) as [_ [_ [_ [_ [_ Z0]]]]]. exact (Z0 m0 z eq_refl).
+    + destruct (f_own_ret _ _ _ R t m0 v Hj) as [A B]. split; [exact A|]. intros z Ez. destruct (B z Ez) as [B1 B2]. split; [exact B1|apply Wk; exact B2].
+  - intros j Hin. rewrite Cu, Tp. destruct (Inr _ Hin) as [Hj|Hj].
+    + destruct (N3 _ Hj) as [_ [_ [Z1 [Z2 [Z3 _]]]]]. split.
+      * intros m0 q [E|E]; exfalso; [exact (Z1 m0 q E)|exact (Z2 q E)].
+      * intros m0 q E. exfalso. exact (Z3 m0 q E).
+    + destruct (f_own_pr _ _ _ R t j Hj) as [A B]. split; [intros m0 q E; destruct (A m0 q E) as [A1 A2]; split; [apply Wk; exact A1|exact A2]
+                                                          |intros m0 q E; destruct (B m0 q E) as [B1 B2]; split; [apply Wk; exact B1|exact B2]].
+  - intros c Hcu Wc. rewrite Cu in Hcu. rewrite Tr, Hc'. destruct (N4 (NotChan c Hcu (or_introl Wc))) as [Z0 _].
+    rewrite prcount_app, Z0. cbn [plus]. destruct (f_pr _ _ _ R t c Hcu Wc) as [A B]. rewrite Hc, prcount_cons, I1 in A, B. exact (conj A B).
+Qed.
